@@ -120,7 +120,7 @@ def gen_case(rng, for_log=False):
             'filters': {'input': filt_in,
                         'output': filt_out},
             'pending': rng.choice(['', '', 'PEND\xe9ing']), 'steps': steps, 'end': end, 'logs': [],
-            'prior': rng.random() < 0.3, 'dead_first': dead_first}
+            'prior': rng.choice([False, False, False, False, True, True, 'abort']), 'dead_first': dead_first}
     if case['pending'] and rng.random() < 0.5:
         # the pending text was left behind by an exact-string call that timed out
         case['pending'] = 'PEND\xe9ing text, longer than any look-back'
@@ -152,7 +152,7 @@ def gen_case(rng, for_log=False):
 def run_session(case):
     """-> dict(observations) ; raises PeerError when the harness could not drive it"""
     cfg = {k: case[k] for k in ('enc', 'poll', 'escape', 'filters', 'pending', 'logs')}
-    cfg['prior'] = bool(case.get('prior'))
+    cfg['prior'] = case.get('prior') or False
     cfg['dead_first'] = bool(case.get('dead_first'))
     cfg['pending_trim'] = bool(case.get('pending_trim'))
     S = Session(cfg)
@@ -162,17 +162,17 @@ def run_session(case):
         if S.expect_status('SPAWNED', 20) is None:
             raise PeerError('driver did not spawn the inner child')
         pup.wait_ready()
+        pend = case['pending'].encode('utf-8')
+        if pend:
+            pup.write(b'<<' + pend)
         if case.get('prior'):
             if S.expect_status('PRIOR', 20) is None:
                 raise PeerError('driver did not reach the earlier interact()')
             if not S.wait_raw(10):
                 raise PeerError('outer tty never became raw (earlier session)')
-            S.type(b'\x1d')
+            S.type(b'\x01' if case.get('prior') == 'abort' else b'\x1d')
             if S.expect_status('PRIOR-DONE', 20) is None:
                 raise PeerError('the earlier interact() session did not end on its escape character')
-        pend = case['pending'].encode('utf-8')
-        if pend:
-            pup.write(b'<<' + pend)
         sent_first = b''
         if case.get('dead_first'):
             if S.expect_status('WAIT-DEATH', 20) is None:
